@@ -302,6 +302,11 @@ var c03Indexed = []string{
 	"(s:validate (s:len i) \"abc\")",
 	"(s:validate (s:gt i) j)",
 	"(time:time-add (time:parse-rfc3339 \"2024-01-01T00:00:00Z\") (time:duration-ns i))",
+	// size guards on a COUNT: the count is an arbitrary 64-bit integer outside the small range the
+	// boundary list above covers (a guard that multiplies instead of dividing wraps around)
+	"(string:repeat \"abc\" i)",
+	"(string:repeat \"12345678\" i)",
+	"(string:repeat \"abcd\" (+ i j))",
 }
 
 func VerifC03_KIndexed_Setup() { VerifC03_KBuiltins_Setup() }
@@ -317,8 +322,16 @@ func VerifC03_KIndexed() {
 		ti = vConcInt(vndChoice("tmpl", len(c03Indexed)))
 	}
 	tmpl := c03Indexed[ti]
-	loopy := strings.HasPrefix(tmpl, "(make-sequence") || strings.HasPrefix(tmpl, "(dotimes") || strings.HasPrefix(tmpl, "(string:repeat") || strings.HasPrefix(tmpl, "(search-sorted")
-	if loopy {
+	loopy := strings.HasPrefix(tmpl, "(make-sequence") || strings.HasPrefix(tmpl, "(dotimes") || strings.HasPrefix(tmpl, "(string:repeat \"ab\"") || strings.HasPrefix(tmpl, "(search-sorted")
+	if strings.HasPrefix(tmpl, "(string:repeat \"abc") || strings.HasPrefix(tmpl, "(string:repeat \"1234") {
+		i, j := vndInt("i"), vndInt("j")
+		big := 1 << 24 // above every allocation limit used here: no count in the claim makes the builtin loop
+		vAssume(i < 0 || i > big)
+		vAssume(j == 0 || strings.Contains(tmpl, "(+ i j)"))
+		vAssume(i+j < 0 || i+j > big)
+		env.PutGlobal(lisp.Symbol("i"), lisp.Int(i))
+		env.PutGlobal(lisp.Symbol("j"), lisp.Int(j))
+	} else if loopy {
 		// a loop whose trip count is the integer itself: boundary values instead of a free word
 		bs := []int{0, 1, -1, 2, 3, 5, 1 << 31, 9223372036854775807, -9223372036854775808}
 		env.PutGlobal(lisp.Symbol("i"), lisp.Int(bs[vConcInt(vndChoice("bi", len(bs)))]))
